@@ -149,20 +149,32 @@ ROWS = {
        'array, list, file, device path); datetime arithmetic modelled',
   tech='Lean 4 proof (parser/encoder inversion by induction on fields and records; checksum algebra) + translator + differential correspondence'),
  'C16': dict(
-  text='Lean theorems: for each of the eight record kinds parse(encode r) = r for every abstract record; 10-bit M, B, '
-       'accuracy and 4-bit exponents are reassembled and sign-extended for all byte values; the type byte alone selects '
-       'the record class (table regenerated from the live tree).',
-  note='translator harness/translate/sdr.py; Model/SdrParse.lean hand-written, tied by differential run against the '
-       'real SdrCommon.from_data on list/tuple/bytes/array',
-  tech='Lean 4 proof (bit-field reassembly lemmas, per-kind inversion) + translator + differential correspondence'),
+  text='42 Lean theorems: for each of the eight record kinds parse(encode r) = r for every abstract record; 10-bit M, B, '
+       'accuracy and 4-bit exponents are reassembled and sign-extended for all byte values; the type byte alone '
+       'selects the record class. Every mask / shift / or / sign-extension expression of the seven _from_data methods, '
+       '_common_record_key, _device_id_string, _convert_complement (sdr.py) and of TypeLengthString._from_data / '
+       '_unpack6bitascii (fields.py) is regenerated from the Python AST on every run (Gen/SdrExpr.lean) and proved '
+       'equal to the expression the model uses at that place (gen_* theorems), together with the order and sizes of '
+       'all pops, the flag masks and the bytes each expression reads.',
+  note='translators harness/translate/sdr.py (dispatch table, BCD map) and harness/translate/sdrexpr.py (expression '
+       'grammar, fail closed); the control skeleton of Model/SdrParse.lean (which popped byte feeds which expression, '
+       'short-buffer DecodingError, exception kinds), pop_unsigned_int, _decode_capabilities and bcd_decode are '
+       'hand-written and tied by the differential run against the real SdrCommon.from_data on list/tuple/bytes/array; '
+       'parsed results are kept and re-read after later parses (no state shared between records)',
+  tech='Lean 4 proof (bit-field reassembly lemmas, per-kind inversion, rfl / kernel sweeps against AST-generated expressions) + AST expression translator + differential correspondence'),
  'C17': dict(
   text='Lean theorems over exact rationals: forward conversion is L[(M*x+B*10^K1)*10^K2] with x read per analog format, '
        'None maps to None, and for linear sensors with M != 0 the inverse recovers every raw byte except one\'s-complement '
-       'negative zero (proved for all M, B, K1, K2). Tie: all 256 exponent pairs x formats x raw bytes against the real '
+       'negative zero (proved for all M, B, K1, K2). The sign conversions, the argument (M*x + B*10^K1)*10^K2, the inverse '
+       'formula, the two negative encodings with the variable their "< 0" test reads, both guards and '
+       '_convert_complement are regenerated from the AST of sdr.py on every run (Gen/SensorExpr.lean) and proved equal '
+       'to the model\'s expressions (gen_*_eq). Tie: all 256 exponent pairs x formats x raw bytes against the real '
        'float code with a condition-aware error bound.',
   note='IEEE-754 rounding of the Python arithmetic is modelled, not verified (model is exact Rat; near-half cases counted '
-       'as ambiguous); transcendental functions are parameters; linearisation table regenerated each run',
-  tech='Lean 4 proof (field arithmetic over Rat, case analysis on formats) + translator + differential correspondence'),
+       'as ambiguous); transcendental functions are parameters; linearisation table regenerated each run; expression '
+       'translator harness/translate/sdrexpr.py (fail closed; int(round()) an opaque cut); control skeleton (guard '
+       'order, M = 0, None) and round() hand-written in Model/Sensor.lean, tied by the differential run',
+  tech='Lean 4 proof (field arithmetic over Rat, case analysis on formats, definitional equality with AST-generated expressions) + AST expression translator + differential correspondence'),
  'C18': dict(
   text='Lean theorems: parse(encode image) = image for every well-formed HPM.1 image (header, components, every action '
        'record with exactly its firmware bytes), and for every binary, block size and device behaviour the upload '
@@ -207,14 +219,22 @@ ROWS = {
        'owned by other properties (SDR, SEL, FRU, HPM upgrade, DCMI, raw) are exercised-only or not exercised here',
   tech='Lean 4 proof (symbolic evaluation of each exchange, induction over histories, decide +kernel over generated tables) + translators + closed-loop history correspondence against the Lean reference BMC'),
  'C08': dict(
-  text='Lean theorems over small-step handler programs: for every operation of shape "checked" (skeleton regenerated '
-       'from the AST of every public method) and for the retry/poll handlers, a non-OK completion code at any request '
-       'position yields CompletionCodeError/RetryError/HpmError or the fault-free result after a retry, never a '
-       'different value. Tie and residue: every public method x every request position x completion-code alphabet '
-       '(thorough: all 255 codes) on the real code.',
-  note='translator harness/translate/api.py (skeletons, shape classes); operations of shape "other" have the exhaustive '
-       'fault-injection run only; stateless scripted BMC; virtual clock',
-  tech='Lean 4 proof (fault-safety of handler programs, table decided by kernel) + AST translator + exhaustive fault enumeration on the real code'),
+  text='56 Lean theorems over interaction programs: every one of the 145 public operations of pyipmi.Ipmi is covered '
+       '(kernel-decided table_covered over the table regenerated from the AST of every public method): 108 by the '
+       'skeleton theorems (every resolution, one fault and ANY fault set), 9 leaves by handler-model theorems at full '
+       'strength (any request position, any code 01h..FFh, any fault set: read_fru_data, the *_and_wait polls, '
+       'upload_binary, get_component_properties, get_sel_entry, get_and_clear_sel_entry), 21 compositions by '
+       'composition_fault_safe / composition_multi_safe (SEL/SDR listings and FRU area reads also instantiated), 3 '
+       'primitives and 4 transport operations listed with their reason: a non-OK completion code yields '
+       'CompletionCodeError with that code / RetryError / HpmError or - where the handler retries or adapts - the '
+       'fault-free result; never another value, never default-initialised data. Tie and residue: every public '
+       'method x every request position x completion-code alphabet (thorough: all 255 codes), model-vs-code on '
+       'outcome, bytes and request trace for the modelled handlers.',
+  note='translator harness/translate/api.py (skeletons, shape classes; loops10/loops11 extractors for constants); Prog '
+       'models hand-written and tied by the correspondence run; device hypotheses of the leaf theorems (consistent '
+       'FRU/SEL/SDR storage, HPM action and status succeed fault-free) are assumed at every leaf a composition '
+       'reaches; get_sel_entry admits at most 16 answers CAh per fault set; stateless scripted BMC; virtual clock',
+  tech='Lean 4 proof (fault-safety of interaction programs closed under bind, induction on budgets, decide +kernel over the generated table) + AST translator + exhaustive fault enumeration and model-vs-code trace comparison on the real code'),
 }
 
 NOT_YET = {
